@@ -328,6 +328,41 @@ theorem localOf_glob_iff (s : SeedVal) : localOf s = .glob ↔ (s = .none ∨ s 
 theorem localOf_priv (s : SeedVal) (h : s ≠ .none ∧ s ≠ .npRandom) : localOf s = .priv := by
   cases s <;> simp_all [localOf, getRng]
 
+/-! ## `get_rng` connected to the run semantics -/
+
+/-- **"the same result for an integer seed as for a RandomState constructed from that integer".**  In the model, a
+    run with `seed = k` and a run with `seed = RandomState(k)` (fresh, no draw made) are the same run: both read stream
+    `k` from position 0.  NOTE: this holds *by the definition of the hand model* `getRng` (an int is turned into
+    `RandomState(int)`); that the real `get_rng` behaves like the hand model is established by the correspondence cases
+    of the check (identity / state comparison on the real function), not by a proof. -/
+theorem runSeed_int_eq_randomState (tbl : Table) (σ : SeedStreams) (ctl : List Nat → Nat → Bool) (n k : Nat)
+    (body : Stmt) (st : St) :
+    runSeed tbl σ ctl n (.int k) body st = runSeed tbl σ ctl n (.randomState k 0) body st := rfl
+
+/-- seeded call through `getRng`: for a disciplined function the run is determined by the stream of the caller's seed
+    alone (from the position the caller's generator stands at), and the global generators are not advanced -/
+theorem runSeed_seeded {tbl : Table} (ht : okTable tbl = true) {f : String} {d : FnDecl}
+    (hf : lookup tbl f = some d) (hseed : d.hasSeed = true) {s : SeedVal} {k pos : Nat} (hs : getRng s = .stream k pos)
+    (σ σ' : SeedStreams) (hσ : σ.privOf k = σ'.privOf k) (ctl : List Nat → Nat → Bool) (n : Nat) (st : St) :
+    runSeed tbl σ ctl n s d.body st = runSeed tbl σ' ctl n s d.body st ∧
+    ∀ st', runSeed tbl σ ctl n s d.body st = some st' →
+      st'.npPos = st.npPos ∧ st'.pyPos = st.pyPos ∧ st'.unkPos = st.unkPos := by
+  unfold runSeed
+  simp only [hs]
+  obtain ⟨e, p⟩ := seeded_deterministic ht hf hseed (σ.streams k) (σ'.streams k) (by simpa [SeedStreams.streams] using hσ)
+    ctl n { st with privPos := pos }
+  exact ⟨e, fun st' h => p st' h⟩
+
+/-- unseeded call through `getRng` (`None` or `np.random`): determined by the global NumPy stream alone -/
+theorem runSeed_unseeded {tbl : Table} (ht : okTable tbl = true) {f : String} {d : FnDecl}
+    (hf : lookup tbl f = some d) (hseed : d.hasSeed = true) {s : SeedVal} (hs : getRng s = .global)
+    (σ σ' : SeedStreams) (hσ : σ.np = σ'.np) (ctl : List Nat → Nat → Bool) (n : Nat) (st : St) :
+    runSeed tbl σ ctl n s d.body st = runSeed tbl σ' ctl n s d.body st ∧
+    ∀ st', runSeed tbl σ ctl n s d.body st = some st' → st'.pyPos = st.pyPos ∧ st'.unkPos = st.unkPos := by
+  unfold runSeed
+  simp only [hs]
+  exact unseeded_deterministic ht hf hseed (σ.streams 0) (σ'.streams 0) (by simpa [SeedStreams.streams] using hσ) ctl n st
+
 /-! ## non-vacuity: a concrete table, a concrete bad skeleton, concrete executions -/
 
 def exTable : Table :=
